@@ -17,7 +17,8 @@ import (
 // has ended (fresh variable per iteration, shared upvalues, register reuse).
 var f1Tok = []string{
 	"Lx", "Ly", // local v = <100*pos>
-	"Ux", "Uy", // local v            (nil: must not show a stale register)
+	"Ux",       // local x            (nil: must not show a stale register)
+	"Sx",       // local x = (x or 0) + 1000   (the initialiser sees the outer x)
 	"Ix", "Iy", // v = (v or 0) + 1
 	"Gx", "Gy", "Gi", // fs[#fs+1] = function() return v end
 	"Cx", "Cy", // fs[#fs+1] = function() v = (v or 0) + 1 return v end
@@ -61,6 +62,8 @@ func f1Build(toks []int) *prog.Prog {
 			st.add(b.Local1(v, b.i(100*(pos+1))))
 		case tok[0] == 'U' && v != "":
 			st.add(b.Local([]string{v}))
+		case tok[0] == 'S' && v != "":
+			st.add(b.Local1(v, b.Bin("+", b.orZero(v), b.i(1000))))
 		case tok[0] == 'I' && tok != "IF":
 			st.add(b.Set(v, b.Bin("+", b.orZero(v), b.i(1))))
 		case tok[0] == 'G':
